@@ -117,3 +117,41 @@ def compress(ctx, lb, c, tables=False):
         return None
     verdict, inf, out = ora.refbz(r.out, tables=tables, want_out=False)
     return r, verdict, inf, desc, files, info
+
+
+def _design(a):
+    import random
+    n, ratio, K, sd = a
+    return gen.bwt_designed(random.Random(sd), n, ratio, K)
+
+
+def deep_runa_cases(ctx, lb, ndesign):
+    """Search BWT-designed plaintexts for blocks whose FIRST prefix table gives RUNA a code of 17+ bits, then
+    return 8 slightly shortened variants of each (all byte-alignment paddings of the first table's start value)."""
+    import concurrent.futures as cf
+    rnd = ctx.rng('deep-runa')
+    params = [(rnd.choice([400000, 900000, 900000]), rnd.choice([0.5, 0.55, 0.55, 0.6]), rnd.choice([25, 40]), rnd.randrange(1 << 30))
+              for _ in range(ndesign)]
+    with cf.ProcessPoolExecutor(max_workers=core.JOBS) as ex:
+        datas = list(ex.map(_design, params))
+
+    def probe(i):
+        r = core.run([lb, '-9', '-n', '1'], stdin=datas[i], timeout=200)
+        if r.rc != 0:
+            return i, 0
+        v, info, _ = ora.refbz(r.out, tables=True, want_out=False)
+        try:
+            return i, info['streams'][0]['blocks'][0]['tables'][0]['len'][0]
+        except (IndexError, KeyError):
+            return i, 0
+    depth = dict(core.pmap(probe, range(len(datas))))
+    ctx.count('bwt_designs_probed', len(datas))
+    chosen = sorted(depth, key=lambda i: -depth[i])[:max(2, ndesign // 5)]
+    cs = []
+    for i in chosen:
+        if depth[i] < 17:
+            continue
+        ctx.count('bwt_designs_with_first_table_RUNA_17_or_more')
+        for k in range(8):
+            cs.append(dict(fam='bwt-designed-deep-runa', data=datas[i][:len(datas[i]) - k], level=9, ultra=False, w=1, env={}, i=100000 + 8 * i + k))
+    return cs
